@@ -29,9 +29,14 @@ func gen(g *common.Gen) {
 		sh := Shape{Big: r.Chance(1, 3), Huge: r.Chance(1, 60) || (common.Thorough() && r.Chance(1, 25))}
 		g.Op("new")
 		var mk string
-		if r.Chance(1, 2) {
+		switch {
+		case r.Chance(1, 6):
+			// estimated length at a TL-length boundary (252..256, 65534..65538): a signature shorter
+			// than its estimate narrows the outer header
+			mk = Steered(r, g, r.Chance(1, 2))
+		case r.Chance(1, 2):
 			mk = GenMkd(r, sh, g, "")
-		} else {
+		default:
 			mk = GenMki(r, sh, g, "")
 		}
 		g.Op("%s", mk)
